@@ -3,6 +3,7 @@ package syncworld
 import (
 	"github.com/NethermindEth/juno/core"
 	"github.com/NethermindEth/juno/core/felt"
+	"github.com/NethermindEth/juno/core/pending"
 	"github.com/NethermindEth/juno/starknet"
 	"github.com/NethermindEth/juno/sync/preconfirmed"
 
@@ -13,15 +14,28 @@ import (
 
 // c20Direct drives the real preconfirmed.ChainStorage through its API in tape order (ApplyUpdate,
 // AdvanceTo, SnapshotForBlock) while the canonical head under it is moved by direct stores, reverts
-// and fork replacements, with reader steps in between. No goroutines are involved.
+// and fork replacements, with reader steps in between. In the plain sub-class no goroutines are
+// involved; in the cooperative sub-class (c20coop.go) some reader steps run on a goroutine of their own
+// that is interleaved with the writer driver at the atomic operations of chain_storage.go.
 func c20Direct(c *sim.Ctx) {
 	t := c.T
 	cfg := config{gomaxprocs: 0, newState: t.Draw("newstate", 2) == 1, maxChain: 12, maxReorgs: 0}
 	cfg.initLen = 3 + t.Draw("d.init", 6)
 	cfg.presync = 1 + t.Draw("d.presync", cfg.initLen)
 	cfg.steps = t.Range("d.steps", 20, 160)
+	coopOn := t.Draw("d.coop", 3) != 0 // 0 = the plain sub-class (every reader step is atomic)
+	switch c.Knobs["c20_class"] {
+	case "coop":
+		coopOn = true
+	case "direct":
+		coopOn = false
+	}
 	w := newWorld(c, cfg)
-	c.Logf("cfg: class=direct newstate=%v canonical_pool=%d stored=%d steps=%d gen=%+v", cfg.newState, cfg.initLen, cfg.presync, cfg.steps, w.drv.opts)
+	var co *coop // nil in the plain sub-class; its methods tolerate that
+	if coopOn {
+		co = newCoop(w)
+	}
+	c.Logf("cfg: class=direct cooperative=%v newstate=%v canonical_pool=%d stored=%d steps=%d gen=%+v", coopOn, cfg.newState, cfg.initLen, cfg.presync, cfg.steps, w.drv.opts)
 	g := w.drv.g
 	p := &pcWorld{w: w, m: newPcModel(t, g.Addrs, g.Slots), bc: w.bc}
 	m := p.m
@@ -57,6 +71,7 @@ func c20Direct(c *sim.Ctx) {
 			c.Broken("direct class: storing canonical block %d: %v", b.B.Number, err)
 		}
 		w.local = append(w.local, stored{b: b})
+		co.headMoved(head())
 	}
 	classesOf := func(r *pcRound, upto int) map[felt.Felt]core.ClassDefinition {
 		out := map[felt.Felt]core.ClassDefinition{}
@@ -78,7 +93,9 @@ func c20Direct(c *sim.Ctx) {
 		return m.newRound(n, w.localTip().Version, m.stateBelow(baseState(), n), t.Draw("d.ntx", 4))
 	}
 	apply := func(what string, upd starknet.PreConfirmedUpdate, n, txc, oldest uint64, cls map[felt.Felt]core.ClassDefinition) {
-		aff, err := stg.ApplyUpdate(upd, n, txc, oldest, cls)
+		var aff *pending.PreConfirmed
+		var err error
+		co.writerCall(func() { aff, err = stg.ApplyUpdate(upd, n, txc, oldest, cls) })
 		switch {
 		case err != nil:
 			c.Probe("direct_update_rejected")
@@ -91,13 +108,22 @@ func c20Direct(c *sim.Ctx) {
 		}
 	}
 
-	for w.step = 1; w.step <= cfg.steps; w.step++ {
+	// writerOpts lists what the writer driver (canonical head included) can do next. race: the list is
+	// for the cooperative scheduler, i.e. a reader action is parked at a yield point; the actions that
+	// move the stored run away from that reader's height get more weight there.
+	writerOpts := func(race bool) []option {
 		lo, hi, has := bounds()
 		var opts []option
 		add := func(name string, weight int, do func()) { opts = append(opts, option{name, weight, do}) }
+		rw := func(plain, racing int) int {
+			if race {
+				return racing
+			}
+			return plain
+		}
 		// ---- canonical head
 		if h := head() + 1; h < len(pool) && pool[h].B.ParentHash.Equal(w.localTip().B.Hash) {
-			add("head.store", 3, func() {
+			add("head.store", rw(3, 5), func() {
 				storeBlock(pool[h])
 				w.storesN++
 				w.logf("direct: canonical head advances to %d", head())
@@ -109,6 +135,7 @@ func c20Direct(c *sim.Ctx) {
 					c.Broken("direct class: RevertHead: %v", err)
 				}
 				w.local = w.local[:len(w.local)-1]
+				co.headMoved(head())
 				w.revertsN++
 				w.logf("direct: canonical head reverted to %d", head())
 			})
@@ -117,6 +144,7 @@ func c20Direct(c *sim.Ctx) {
 					c.Broken("direct class: RevertHead: %v", err)
 				}
 				w.local = w.local[:len(w.local)-1]
+				co.headMoved(head())
 				w.drv.newFork()
 				w.drv.rewindTo(w.localTip())
 				b := w.drv.next(w.localTip())
@@ -132,12 +160,13 @@ func c20Direct(c *sim.Ctx) {
 			})
 		}
 		// ---- writer
-		add("advance", 4, func() {
+		add("advance", rw(4, 9), func() {
 			n := uint64(head() + 1)
 			if t.Draw("d.adv.odd", 5) == 0 && has {
 				n = uint64(max(0, lo-1+t.Draw("d.adv.n", hi-lo+4)))
 			}
-			ok := stg.AdvanceTo(n)
+			var ok bool
+			co.writerCall(func() { ok = stg.AdvanceTo(n) })
 			w.logf("direct: AdvanceTo(%d) = %v", n, ok)
 		})
 		add("apply.full", 6, func() {
@@ -233,7 +262,14 @@ func c20Direct(c *sim.Ctx) {
 				apply("no-change", starknet.PreConfirmedNoChange{}, n, 0, uint64(head()+1), cls)
 			})
 		}
-		opts = append(opts, p.readerOptions(head)...)
+		return opts
+	}
+	racing := func() []option { return writerOpts(true) }
+	for w.step = 1; w.step <= cfg.steps; w.step++ {
+		opts := append(writerOpts(false), p.readerOptions(head)...)
+		if co != nil {
+			opts = append(opts, p.raceOptions(co, stg, head, racing)...)
+		}
 		w.choose("op", opts)
 	}
 	p.finalInspect()
